@@ -522,7 +522,7 @@ fn mutant_texts(tier: Tier) -> Vec<String> {
 
 pub fn run(tier: Tier) -> i32 {
     let mut run = Run::new("C11", tier, "model_checking");
-    run.rule = "(a) stability: every spelling with <= 1 (thorough 2) deviations of the scalar alphabet and of a container sample (reference writer), the corpus files shipped with the repository, every accepted single-byte mutant of the small documents, for Zinc and Hayson: decode, re-encode, decode again (same value incl. grid ver), re-encode (identical text). (b) chunking (E2): every script of a reader that at each read() delivers all / one byte / half / Interrupted, with <= 2 deviations, for parse_value and for parse_grid_iterator vs parse_grid. (a'/b') every size witness (strings, widths, nesting at and around 2^6..2^16): stable in both formats, and its Zinc text through readers delivering at most 1,2,3,4,5,7,8,64,4096,8192 bytes per call or Interrupted every 2nd/3rd/7th call decodes (whole value and lazy rows) as from a buffer. (c) laziness: a counting reader under parse_grid_iterator for grids of 1-3 columns x 1-40 rows (LF and CRLF, nested grids, empty cells): bytes consumed when row i is yielded <= end of the first token after row i + 12. states = documents, transitions = reader scripts executed; non-trivial = distinct accepted text".into();
+    run.rule = "(a) stability: every spelling with <= 1 (thorough 2) deviations of the scalar alphabet and of a container sample (reference writer), the corpus files shipped with the repository, a timestamp in every zone of the database (bare and inside a grid / list / dict), every accepted single-byte mutant of the small documents, for Zinc and Hayson: decode, re-encode, decode again (same value incl. grid ver), re-encode (identical text). (b) chunking (E2): every script of a reader that at each read() delivers all / one byte / half / Interrupted, with <= 2 deviations, for parse_value and for parse_grid_iterator vs parse_grid. (a'/b') every size witness (strings, widths, nesting at and around 2^6..2^16): stable in both formats, and its Zinc text through readers delivering at most 1,2,3,4,5,7,8,64,4096,8192 bytes per call or Interrupted every 2nd/3rd/7th call decodes (whole value and lazy rows) as from a buffer. (c) laziness: a counting reader under parse_grid_iterator for grids of 1-3 columns x 1-40 rows (LF and CRLF, nested grids, empty cells): bytes consumed when row i is yielded <= end of the first token after row i + 12. states = documents, transitions = reader scripts executed; non-trivial = distinct accepted text".into();
     run.assume("12 bytes = the lexer's maximal lookahead (1 scanner byte + up to 10 peeked bytes for number/date detection + CR LF)");
     run.assume("Interrupted reads are retried by the decoder (std::io::Read::read_exact semantics)");
     crate::engine::quiet_panics();
@@ -571,6 +571,27 @@ pub fn run(tier: Tier) -> i32 {
         }
     }
     // accepted mutants
+    // every zone of the database (two instants), bare and as a grid cell, in both formats
+    let zones = crate::model::time_ref::in_model_zones();
+    let l = par_for(zones.len(), |i, local| {
+        for t in [1_610_000_000i64, 1_625_556_600] {
+            // texts from the reference writers (the statement is about any accepted text, not only
+            // about what the library itself writes)
+            let v = V::dt(t, 0, &zones[i]);
+            let z = zinc_ref::write_canonical(&v);
+            run_stable("zinc", &z, local);
+            run_stable("zinc", &format!("ver:\"3.0\"\nts,n\n{z},1\n"), local);
+            let (j, _) = crate::model::hayson_ref::write(&v, &mut Chooser::replaying(vec![]));
+            run_stable("hayson", &j, local);
+            run_stable("hayson", &format!("[{j},{{\"ts\":{j}}}]"), local);
+            local.count("zone-texts");
+            if zinc_stable(&z) != Ok(true) || hayson_stable(&j) != Ok(true) {
+                local.count("zone-texts-not-accepted");
+            }
+        }
+    });
+    run.absorb(l);
+    run.require(run.counter("zone-texts") > 1000 && run.counter("zone-texts-not-accepted") == 0 || !run.stats.fails.is_empty(), "zone texts of the reference writers are not all accepted");
     let muts = mutant_texts(tier);
     let l = par_for(muts.len(), |i, local| run_stable("zinc", &muts[i], local));
     run.absorb(l);
